@@ -243,6 +243,11 @@ func (e *Enc) flatten(v Val, t types.Type) []T {
 		if !ok {
 			panic(fmt.Sprintf("flatten: expected iface for %s, got %T", typeKey(t), v))
 		}
+		if pv, ok := iv.Boxed.(*PtrV); ok && pv.A.Kind == ACell {
+			// the boxed address of a local goes into memory (e.g. a varargs array of interfaces):
+			// the local must live on the heap so that callees reaching it can modify it
+			e.escape(pv.A.Cell, "boxed address of local stored in memory")
+		}
 		return []T{iv.Tag, iv.Data}
 	case *types.Slice:
 		sv, ok := v.(*SliceV)
@@ -467,6 +472,35 @@ func (e *Enc) eqVal(a, b Val, t types.Type) T {
 // ---------------------------------------------------------------------------------------------
 // pointers as terms
 
+// fldTerm is the address of an embedded struct-typed (or address-taken) field of the object at
+// base. Field address functions are injective, their ranges are pairwise disjoint, a field of a
+// non-nil object is non-nil, and a fresh allocation is never the interior of another object.
+func (e *Enc) fldTerm(s types.Type, idx int, base T) T {
+	fn := e.fldFun(s, idx)
+	t := T{"(" + fn + " " + base.S + ")", SInt}
+	inv := e.s.DeclareFun("inv:"+strings.Trim(fn, "|"), []string{SInt}, SInt)
+	own := e.s.DeclareFun("fldowner", []string{SInt}, SInt)
+	id, ok := e.fldIDs[fn]
+	if !ok {
+		id = len(e.fldIDs) + 1
+		e.fldIDs[fn] = id
+	}
+	if strings.Contains(t.S, "bv!") || strings.Contains(t.S, "|qh|") {
+		k := "fld-ax:" + fn
+		if !e.s.declSet[k] {
+			e.s.declSet[k] = true
+			e.s.decls = append(e.s.decls, fmt.Sprintf("(assert (forall ((|fb| Int)) (! (and (= (%s (%s |fb|)) |fb|) (= (%s (%s |fb|)) %d) (=> (not (= |fb| 0)) (not (= (%s |fb|) 0)))) :pattern ((%s |fb|)))))", inv, fn, own, fn, id, fn, fn))
+		}
+		return t
+	}
+	if k := "fld-ax:" + t.S; !e.rangeSeen[k] {
+		e.rangeSeen[k] = true
+		e.s.Assume(And(Eq(App(SInt, inv, t), base), Eq(App(SInt, own, t), IntLit(int64(id))),
+			Imp(Not(Eq(base, IntLit(0))), Not(Eq(t, IntLit(0))))))
+	}
+	return t
+}
+
 func (e *Enc) fldFun(s types.Type, idx int) string {
 	st := under(s).(*types.Struct)
 	name := "fld:" + typeKey(s) + "." + st.Field(idx).Name()
@@ -483,13 +517,7 @@ func (e *Enc) ptrTerm(p *PtrV) T {
 			t, _ := e.structAddr(a)
 			return t
 		}
-		t := T{"(" + e.fldFun(a.S, a.Idx) + " " + a.Base.S + ")", SInt}
-		if k := "fldnz:" + t.S; !e.rangeSeen[k] && !strings.Contains(t.S, "bv!") && !strings.Contains(t.S, "|qh|") {
-			// the address of a field of a non-nil object is non-nil
-			e.rangeSeen[k] = true
-			e.s.Assume(Imp(Not(Eq(a.Base, IntLit(0))), Not(Eq(t, IntLit(0)))))
-		}
-		return t
+		return e.fldTerm(a.S, a.Idx, a.Base)
 	case ACell:
 		e.escape(a.Cell, "address of local used as a value")
 		t := a.Cell.RefTerm
